@@ -32,7 +32,7 @@ type Loaded struct {
 }
 
 // Load loads pkgPattern from repo with harness files overlaid into pkgDir.
-func Load(repo, pkgPattern string, harnessFiles []string, replace map[string]string) (*Loaded, error) {
+func Load(repo, pkgPattern string, harnessFiles []string, replace map[string]string, aux map[string][]string) (*Loaded, error) {
 	overlay := map[string][]byte{}
 	for dst, src := range replace {
 		b, err := os.ReadFile(src)
@@ -61,6 +61,29 @@ func Load(repo, pkgPattern string, harnessFiles []string, replace map[string]str
 		return nil, err
 	}
 	overlay[filepath.Join(pkgDir, "zz_verif_support.go")] = sup
+	// auxiliary harness files in other pint packages (e.g. an exported entry point next to unexported internals)
+	for auxPkg, files := range aux {
+		auxDir := filepath.Join(repo, strings.TrimPrefix(auxPkg, "./"))
+		auxName := ""
+		for _, h := range files {
+			src, err := os.ReadFile(h)
+			if err != nil {
+				return nil, err
+			}
+			overlay[filepath.Join(auxDir, "zz_verif_"+filepath.Base(h))] = src
+			for _, line := range strings.Split(string(src), "\n") {
+				if strings.HasPrefix(line, "package ") {
+					auxName = strings.TrimSpace(strings.TrimPrefix(line, "package "))
+					break
+				}
+			}
+		}
+		asup, err := supportSource(auxName)
+		if err != nil {
+			return nil, err
+		}
+		overlay[filepath.Join(auxDir, "zz_verif_support.go")] = asup
+	}
 	cfg := &packages.Config{
 		Mode:       packages.LoadAllSyntax,
 		Dir:        repo,
